@@ -111,3 +111,8 @@ claim("C21",
       "exhaustive enumeration of channel frequencies / NR43 values on the real APU with per-cycle waveform-position observation against the documented step periods and LFSR sequence",
       "For channels 1, 2 and 3 and every enumerated 11-bit frequency (quick: all f with at most two bits set or clear plus the neighbourhood of 0x400; thorough: all 2,048), the duty/wave position is read after every machine cycle over 24 steps and the cumulative step count must equal floor((4N+phi)/P) for one phase and P = 4(2048-f) (2(2048-f) for channel 3) clock cycles; for channel 4 every NR43 value with shift <= 13 must step the LFSR every d(r)*2^s clock cycles over 6 steps; at the fastest clock the output bit over three periods must have minimal period 32,767 (15-bit) and 127 (7-bit) and be a rotation of the documented x^15+x^14+1 sequence.",
       "Positions are read through the audio hook (VGet); the delay of the first step after a trigger is treated as a phase convention (at most one extra period).")
+
+claim("C23",
+      "exhaustive enumeration of short I/O write sequences and of every store instruction form aimed at SB on the real Mapper/CPU, plus monitored whole-ROM transcripts",
+      "(a) every sequence of up to 4 (thorough 5) Mapper writes over 11 events (SB with four values, SC, JOYP, DIV, IF, WRAM, FF03), with a recording writer and with none, with and without machine cycles in between: after every write the transcript must equal the SB writes so far and SB/SC must read FF; (b) every executable opcode with BC, DE, HL, SP-2, FF00+n, FF00+C and nn aimed at FF00, FF01, FF02 and FEFF (3 accumulator values, 2 flag sets): the delivered bytes must equal exactly the reference CPU's writes to FF01; (c) 14 blargg ROMs: the transcript equals the SB stores decoded by a per-instruction monitor.",
+      "Trusted: ref/sm83.go write log. The Config.SerialWriter wiring of gameboy.New is covered by C26's twin comparison.")
